@@ -3,7 +3,7 @@
 // modes: guided (TLC behaviours of TimedSingleThreadMC), dfs (bounded-preemption enumeration), random (seeded).
 // One execution = one scenario {at[], due[], kind[], stop, stopAt} on a fresh context:
 //   thread 0  the library's timer thread (adopted at its first cv_.wait)
-//   thread 1  client A: for each op i: wait until now >= at[i]; start(op i)   (ops are heap-allocated individually
+//   thread 1, 3  arming clients (owner[i]): for each of their ops i: wait until now >= at[i]; start(op i)   (ops are heap-allocated individually
 //             and freed by their receiver inside the completion => ASan sees any later touch)
 //   thread 2  remote stopper B: wait until now >= stopAt; request_stop() on op `stop`'s source
 //   Tick      performed by the controller only when no thread is enabled (time passes only at quiescence)
@@ -28,7 +28,7 @@ using sclock = std::chrono::steady_clock;
 static const long long BASE = 1000;   // virtual ns at the start of every execution ("past" due times stay positive)
 static long long rel_now() { return tseam::vnow_ns.load() - BASE; }
 
-struct Scenario { int id; std::vector<int> at, due; std::vector<std::string> kind; int stop, stopAt; };
+struct Scenario { int id; std::vector<int> at, due, owner; std::vector<std::string> kind; int stop, stopAt; };
 
 struct World;
 struct Rcv {
@@ -81,9 +81,10 @@ static void sleep_until_v(long long abs_ns) {
   tseam::park("timer.sleep", 2);
 }
 
-static void clientA(World* w) {
+static void clientA(World* w, int me) {
   const Scenario& s = *w->scn;
   for (int i = 1; i <= w->n(); ++i) {
+    if (s.owner[i - 1] != me) continue;
     sleep_until_v(BASE + s.at[i - 1]);
     auto sched = w->ctx->get_scheduler();
     long long dueRel;
@@ -94,10 +95,10 @@ static void clientA(World* w) {
       dueRel = s.due[i - 1];
       w->op[i] = make_op(schedule_at(sched, sclock::time_point(std::chrono::nanoseconds(BASE + s.due[i - 1]))), Rcv{w, i});
     }
-    vrt::ev("{\"e\":\"ArmBegin\",\"sync\":1,\"op\":%d,\"due\":%lld,\"now\":%lld,\"t\":1}", i, dueRel, rel_now());
+    vrt::ev("{\"e\":\"ArmBegin\",\"sync\":1,\"op\":%d,\"due\":%lld,\"now\":%lld,\"t\":%d}", i, dueRel, rel_now(), me);
     OpBase* p = w->op[i];
     p->start();                     // may complete (and free the op) before returning
-    vrt::ev("{\"e\":\"ArmEnd\",\"op\":%d,\"now\":%lld,\"t\":1}", i, rel_now());
+    vrt::ev("{\"e\":\"ArmEnd\",\"op\":%d,\"now\":%lld,\"t\":%d}", i, rel_now(), me);
   }
 }
 static void stopperB(World* w) {
@@ -120,7 +121,8 @@ static void drive(vrt::Ctl& c, World& w, Result& r, Choose&& choose, int& ticks)
   while (r.steps.size() < 100000) {
     auto en = tseam::enabled_set(c);
     if (en.empty()) {
-      bool clientsDone = c.finished(1) && (!c.thr.count(2) || c.finished(2));
+      bool clientsDone = true;
+      for (int t : {1, 2, 3}) if (c.thr.count(t) && !c.finished(t)) clientsDone = false;
       if (clientsDone && w.allFired()) return;
       if (ticks >= MAXTICKS) { r.lost = true; return; }
       ++ticks; tseam::tick();
@@ -149,7 +151,8 @@ int main(int argc, char** argv) {
   std::vector<Scenario> scns;
   { std::ifstream f(a.str("scenarios")); json j; f >> j;
     for (auto& s : j) { Scenario sc; sc.id = s["id"].get<int>(); sc.at = s["at"].get<std::vector<int>>(); sc.due = s["due"].get<std::vector<int>>();
-      sc.kind = s["kind"].get<std::vector<std::string>>(); sc.stop = s["stop"].get<int>(); sc.stopAt = s["stopAt"].get<int>(); scns.push_back(sc); } }
+      sc.kind = s["kind"].get<std::vector<std::string>>();
+      if (s.contains("owner")) sc.owner = s["owner"].get<std::vector<int>>(); else sc.owner.assign(sc.due.size(), 1); sc.stop = s["stop"].get<int>(); sc.stopAt = s["stopAt"].get<int>(); scns.push_back(sc); } }
   std::map<int, const Scenario*> byId; for (auto& s : scns) byId[s.id] = &s;
   if (a.has("log")) vrt::log_open(a.str("log").c_str());
   long from = a.num("from", 0), to = a.num("to", 1L << 40);
@@ -172,9 +175,12 @@ int main(int argc, char** argv) {
       w->ctx = new timed_single_thread_context();
       tseam::await_adopt(c);                    // the timer thread is now parked in cv_.wait (queue empty)
       World* wp = w.get();
-      c.spawn(1, [wp] { clientA(wp); });
+      bool has3 = false; for (int o : sc.owner) if (o == 3) has3 = true;
+      bool has1 = false; for (int o : sc.owner) if (o == 1) has1 = true;
+      if (has1) c.spawn(1, [wp] { clientA(wp, 1); });
       if (sc.stop != 0) c.spawn(2, [wp] { stopperB(wp); });
-      c.step(1); if (sc.stop != 0) c.step(2);   // past "begin": both park in their first sleep_until_v
+      if (has3) c.spawn(3, [wp] { clientA(wp, 3); });                 // second arming client: start() calls may overlap
+      for (int t : {1, 2, 3}) if (c.thr.count(t)) c.step(t);          // past "begin": all park in their first sleep_until_v
       drv(c, *w, r, ticks);
       if (!r.lost) {
         // let the clock pass every due time so that "exactly once" is decided, then close the execution
